@@ -428,6 +428,9 @@ func VerifAudition(cfgText string, events []VerifEvent, earlyExit bool, writeCSV
 		st:      makeCollectorState(cfg),
 		logger:  log.NewSecondaryLogger(ctx, nil, "collector", true, false),
 	}
+	// short-lived loggers: give their files back when the run is over
+	defer log.VerifRelease(au.logger)
+	defer log.VerifRelease(col.logger)
 	of := newOutputFiles()
 
 	stopped := false
